@@ -98,6 +98,8 @@ def check(case, obs_line, prop_name=""):
                 return "FAIL status sequence %r, expected %r" % (got, want)
         if "wrb" in a:
             want = lst(a["wrb"])
+            if a["wrb"] == "-" and len(resps) == 1:
+                want = ["-"]      # one response whose body is empty
             if len(want) != len(resps):
                 return "FAIL %d responses, %d expected" % (len(resps), len(want))
             for i, (w, r) in enumerate(zip(want, resps)):
